@@ -154,8 +154,10 @@ def run_program(prog):
         vocabs.append(v)
     out = {"trans": {}}
     # translate matrices of the real code for the model
+    tkeys = prog.get("trans_keys")      # None | requested key subset of every translate of this program
+    tkw = {} if tkeys is None else {"keys": list(tkeys)}
     for (a, b) in prog["trans_pairs"]:
-        out["trans"][(a, b)] = np.array(vocabs[a].transform_to(vocabs[b], populate=False), float).tolist()
+        out["trans"][(a, b)] = np.array(vocabs[a].transform_to(vocabs[b], populate=False, **tkw), float).tolist()
 
     srcs = prog["sources"]   # list of ("P", vid, form, vec) | ("S", value)
     keyvecs_of = lambda vid: dict(zip(KEYS, prog["keys"][vid]))
@@ -207,6 +209,8 @@ def run_program(prog):
                 return vocabs[t[2]].parse(KEYS[t[1]])
             return PointerSymbol(KEYS[t[1]], TVocabulary(vocabs[t[2]]))
         if k == "F":
+            if len(t) > 3:     # a special element handed out by the vocabulary itself (the model sees its vector)
+                return vocabs[t[1]][t[3]]
             return SemanticPointer(np.array(t[2], float), vocab=vocabs[t[1]])
         if k == "N":
             return SemanticPointer(np.array(t[2], float), algebra=alg)
@@ -237,7 +241,10 @@ def run_program(prog):
         if k == "rei":
             return spa.reinterpret(build(t[1], mods, oracle), None if t[2] is None else vocabs[t[2]])
         if k == "tra":
-            return spa.translate(build(t[1], mods, oracle), vocabs[t[2]], populate=False)
+            x = build(t[1], mods, oracle)
+            if tkeys is not None and not oracle and hasattr(x, "translate") and prog.get("trans_method"):
+                return x.translate(vocabs[t[2]], populate=False, keys=list(tkeys))   # the method form of the same request
+            return spa.translate(x, vocabs[t[2]], populate=False, **tkw)
         raise ValueError(k)
 
     sink_kind = prog["sink"]          # ("P", vid, kind) | ("S",)
@@ -392,6 +399,19 @@ def run_program(prog):
 # --------------------------------------------------------------------------------------------
 # generators
 # --------------------------------------------------------------------------------------------
+def special_leaf(alg, vid, d, name):
+    """`vocab['Identity']` / `vocab['Zero']` as a fixed operand: for the model an F leaf with the element's vector
+    (HRR: e0; VTB/TVTB: eye(m)/d**0.25 flattened, VTB's is a right identity only), for the code the vocabulary's own object"""
+    if name == "Zero":
+        vec = [0.0] * d
+    elif alg == "hrr":
+        vec = [1.0] + [0.0] * (d - 1)
+    else:
+        m = math.isqrt(d)
+        vec = (np.eye(m) / d ** 0.25).flatten().tolist()
+    return ("F", vid, vec, name)
+
+
 def dyadic_vec(rng, d, kind=None):
     kind = kind or rng.choice(["dense", "dense", "basis", "sparse", "zero"] if d > 1 else ["dense", "dense", "zero"])
     if kind == "zero":
@@ -449,6 +469,8 @@ class Gen:
         r = self.rng.random()
         if r < 0.5:
             return self.symexpr(n)
+        if r < 0.62:
+            return special_leaf(self.alg, vid, self.dims[vid], self.rng.choice(["Identity", "Identity", "Zero"]))
         if r < 0.75:
             return ("F", vid, dyadic_vec(self.rng, self.dims[vid]))
         return ("N", shape_tok(self.alg, self.dims[vid]), dyadic_vec(self.rng, self.dims[vid]))
@@ -590,7 +612,7 @@ def pick_dims(rng, alg, quick):
     return [d] + others
 
 
-LEAF_KINDS = ["P", "P2", "S", "Y", "Z", "F", "N", "C"]
+LEAF_KINDS = ["P", "P2", "S", "Y", "Z", "F", "FI", "N", "C"]
 UNARY = ["neg", "inv2", "invL", "invR", "div", "rei-", "reiV", "tra"]
 BINARY = ["add", "sub", "mul", "dot"]
 
@@ -609,6 +631,8 @@ def small_leaf(kind, ctxp, rng):
         return ("Z", rng.randrange(3), 0)
     if kind == "F":
         return ("F", 0, dyadic_vec(rng, d0, "dense"))
+    if kind == "FI":     # the vocabulary's own identity element (an object of a SemanticPointer subclass)
+        return special_leaf(ctxp["alg"], 0, d0, "Identity")
     if kind == "N":
         return ("N", shape_tok(ctxp["alg"], d0), dyadic_vec(rng, d0, "dense"))
     return ("C", rng.choice(NUMS))
@@ -766,6 +790,21 @@ def run(ctx):
                 p["share"] = True
                 progs.append(("valid", f"valid-shared-{alg}", p))
 
+    # ---- the vocabulary's identity / zero element as an operand on either side of every operator ------------
+    for alg in ("hrr", "vtb", "tvtb"):
+        for dims in ([4, 4, 4], [16, 16, 16]) if alg != "hrr" else ([4, 4, 3], [5, 5, 2]):
+            p0 = make_context(rng, alg, dims, sink=("P", 0, "state"))
+            g = Gen(rng, p0)
+            for nm in ("Identity", "Zero"):
+                e = special_leaf(alg, 0, dims[0], nm)
+                a = g.psrc(0)
+                for t in (("mul", e, a), ("mul", a, e), ("add", e, a), ("sub", a, e), ("mul", e, ("mul", a, e)),
+                          ("mul", ("neg", e), a), ("mul", a, ("inv", "R", e)), ("dot", e, a), ("mul", e, ("Y", 0))):
+                    if t[0] == "dot":
+                        progs.append(("valid", f"valid-special-{alg}", dict(make_context(rng, alg, dims, sink=("S",)), stmts=[("dot", e, ("P", 0, 0))])))
+                    else:
+                        progs.append(("valid", f"valid-special-{alg}", dict(p0, stmts=[t])))
+
     # ---- all trees with at most one operator; sampled two-level trees ---------------------------
     small_ctxs = [("hrr", [4, 4, 3]), ("vtb", [4, 4, 4]), ("tvtb", [4, 4, 4]), ("hrr", [1, 1, 2])]
     if not quick:
@@ -782,6 +821,18 @@ def run(ctx):
             for _ in range(8 if quick else 100):
                 p = dict(base, stmts=[two_level_tree(base, rng)])
                 progs.append(("two-level", "two-level", p))
+
+    # ---- every second program with a translate restricts it to a proper subset of the keys ("only requested
+    #      keys are used"), alternately through spa.translate(...) and the .translate method of the operand ----
+    def has_tra(t):
+        return isinstance(t, tuple) and (t[0] == "tra" or any(has_tra(x) for x in t[1:]))
+    subsets = [["A"], ["A", "C"], ["B", "C"], ["B"], ["C", "A"]]
+    ntra = 0
+    for i, (grp, label, p) in enumerate(progs):
+        if any(has_tra(t) for t in p["stmts"]):
+            ntra += 1
+            if ntra % 2 == 0:
+                progs[i] = (grp, label, dict(p, trans_keys=subsets[(ntra // 2) % len(subsets)], trans_method=(ntra // 2) % 2 == 0))
 
     # ---- run the real code (process pool; all randomness was drawn above) ----------------------
     nproc = int(os.environ.get("VERIF_JOBS_PY", "14"))
